@@ -223,6 +223,19 @@ func (e *SimExec) ExecCalls() []ExecCall {
 	return out
 }
 
+// FinalizeCalls returns the recorded SetFinal calls (with the epoch of the calling incarnation).
+func (e *SimExec) FinalizeCalls() []ExecCall {
+	e.mu.Lock()
+	defer e.mu.Unlock()
+	var out []ExecCall
+	for _, c := range e.Log {
+		if c.Op == "final" {
+			out = append(out, c)
+		}
+	}
+	return out
+}
+
 func (e *SimExec) FinalizedHeights() []uint64 {
 	e.mu.Lock()
 	defer e.mu.Unlock()
